@@ -2,6 +2,7 @@ import NfcVerif.Lemmas.Snep
 import NfcVerif.Lemmas.Handover
 import NfcVerif.Lemmas.SnepSched
 import NfcVerif.Lemmas.NdefRecords
+import NfcVerif.Lemmas.SnepHostile
 /-!
 # C06 - SNEP and handover carry NDEF messages intact through fragmentation
 
@@ -474,5 +475,30 @@ theorem handover_roundtrip_windowed (cfg : HCfg) (cmiu : Nat) (msg : Bytes) (n :
   exact ⟨this.1.1, this.1.2, this.2.1, this.2.2⟩
 
 end handover_windowed
+
+section hostile
+open NfcVerif.Snep
+
+/-- **the server alone, against any peer**: whatever sequence of messages arrives on a fresh
+connection (correct fragments or not, any version, any length fields) and whether or not the peer
+then disconnects, every request that reaches `process_put_request` / `process_get_request` comes
+from octets whose SNEP header announced a length within `max_acceptable_length` - the limit check
+cannot be bypassed by the way a request is fragmented (in particular not by sending it in one
+fragment, the class of C06-m2 / C06-r2m1). -/
+theorem snep_server_limit_any_peer (cfg : SCfg) (ms : List Bytes) :
+    (∀ e ∈ (srvFeed cfg .idle ms).2.2, Admissible cfg e) ∧
+    (∀ e ∈ (srvOnClose cfg (srvFeed cfg .idle ms).1).2, Admissible cfg e) := by
+  obtain ⟨h1, h2⟩ := srvFeed_admissible cfg ms .idle trivial
+  exact ⟨h2, srvOnClose_admissible cfg _ h1⟩
+
+/-- a single fragment announcing more than the limit: Reject, nothing delivered, whatever follows the header -/
+example : srvFeed { maxAcc := 3, smiu := 128, h := { valid := fun _ => true, put := fun _ => 0x81, get := fun _ => .inl 0xE0 } }
+    .idle [[0x10, 2, 0, 0, 0, 4, 0xD1, 1, 0, 0x54]] = (.idle, [rejectRsp], []) := by decide
+
+/-- the same request within the limit is delivered -/
+example : (srvFeed { maxAcc := 4, smiu := 128, h := { valid := fun _ => true, put := fun _ => 0x81, get := fun _ => .inl 0xE0 } }
+    .idle [[0x10, 2, 0, 0, 0, 4, 0xD1, 1, 0, 0x54]]).2.2 = [(Op.put, [0xD1, 1, 0, 0x54])] := by decide
+
+end hostile
 
 end NfcVerif.C06
